@@ -3,7 +3,7 @@
    shortest-digit printing are oracles compared with Rust std by the harness. *)
 From Flocq Require Import Core BinarySingleNaN.
 Require Import ZArith NArith Bool List Arith Reals Lia. Import ListNotations.
-Require Import F64 Dec Types Generic Lang Builtins BuiltinFacts FracFacts FremFacts GenBuiltins.
+Require Import F64 Dec Types Generic Lang Builtins BuiltinFacts FracFacts FremFacts SeqLaws GenBuiltins.
 
 (* chr and ord are mutually inverse on the whole ASCII range 0..127 and chr rejects the neighbourhood (finite sweeps; bounds in the statements) *)
 Theorem C17_chr_ord_inverse : forallb chr_ord_ok (zrange 0 128) = true.
@@ -45,3 +45,13 @@ Theorem C17_math_macro_is_the_codes : gen_math_macro =
    (A [115;113;114;116]%Z, A [115;113;114;116]%Z); (A [116;114;117;110;99]%Z, A [116;114;117;110;99]%Z)].
 Proof. reflexivity. Qed.
 Print Assumptions C17_chr_ord_inverse.
+
+(* int_to_hex: the digits denote the value (base 16, most significant first), only 0-9 and A-F occur - every integer 0 .. 2^52 given as a double, and every value below 2^64 at the digit level *)
+Theorem C17_hex_denotes : forall z, (0 <= z < 2 ^ 64)%Z -> hexval (to_hex z) = z /\ Forall (fun c => (48 <= c <= 57)%N \/ (65 <= c <= 70)%N) (to_hex z).
+Proof. intros z H. split; [apply hex_denotes, H | apply hex_upper_case; lia]. Qed.
+Theorem C17_int_to_hex_builtin : forall off z, (0 <= z <= 2^52)%Z ->
+  exists s, call_builtin off hex_name [VNum (of_int z)] = BOk (VStr s) /\ hexval s = z /\ Forall (fun c => (48 <= c <= 57)%N \/ (65 <= c <= 70)%N) s.
+Proof. exact hex_builtin. Qed.
+Example C17_hex_example : to_hex 255 = [70;70]%N /\ to_hex 0 = [48]%N /\ to_hex 4096 = [49;48;48;48]%N.
+Proof. repeat split; reflexivity. Qed.
+Print Assumptions C17_hex_denotes. Print Assumptions C17_int_to_hex_builtin.
